@@ -8,7 +8,7 @@ from props import c06
 ID = 'C07'
 RULE = c06.RULE + '; every history ends with a query and binary operators are ~14% of the ops'
 COLS = ['==', 'issubset', 'issuperset', '<', '>', 'isdisjoint', 'size', 'len', 'iscontiguous', 'iprange',
-        'iter_ipranges', 'in', 'iteration']
+        'iter_ipranges', 'in', 'iteration', '!=', '<=', '>=', 'bool', 'repr']
 
 
 def corpus():
@@ -54,9 +54,18 @@ def oracle(c, got):
     for idx, (op, g, e) in enumerate(zip(ops, steps, exp)):
         if op[0] == 'q':
             gs, es = g.split(' '), e.split(' ')
+            if len(gs) != len(COLS):
+                return 'step %d %r: query row has %d columns, expected %d' % (idx, op, len(gs), len(COLS))
             for name, a, b in zip(COLS, gs, es):
+                if name == 'repr':
+                    try:
+                        a = H.repr_col_shown(a)
+                    except Exception as err:
+                        return 'step %d %r: repr is not readable (%s)' % (idx, op, err)
                 if a != b and b != H.ANY:
                     return 'step %d %r: %s gave %s, set theory gives %s' % (idx, op, name, a, b)
+            if extras[idx].get('operands_unchanged') is False:
+                return 'step %d %r: a query changed one of its operands' % (idx, op)
         elif e == H.RAISES:
             if not g.startswith('!'):
                 return 'step %d %r: an argument no constructor accepts was taken, set shows %s' % (idx, op, g)
